@@ -326,7 +326,7 @@ def bmc_bv(aut, sem, T, bits=16, **kw):
         sem.set_sort(old)
 
 
-def bmc(aut, sem, T, limit=1, timeout_ms=120000, bad_fn=None):
+def bmc(aut, sem, T, limit=1, timeout_ms=120000, bad_fn=None, budget_s=90):
     """find a schedule with more than `limit` contenders inside the critical section (or reaching
     a state where bad_fn(state) holds).  Incremental unrolling: depth d is asked before d+1."""
     s = z3.SolverFor('QF_BV') if getattr(sem, 'bv', 0) else z3.Solver()
@@ -344,14 +344,18 @@ def bmc(aut, sem, T, limit=1, timeout_ms=120000, bad_fn=None):
         picks.append(pick)
         s.add(z3.Or(*[z3.And(pick == j, f) for j, f in enumerate(opts)]))
         bad = bad_fn(S[t + 1]) if bad_fn else in_cs_count(aut, S[t + 1], sem.k, sem) > limit
+        left = budget_s - (time.time() - t0)
+        if left <= 0:
+            return 'unsat up to depth %d (time budget)' % t, time.time() - t0, None
+        s.set('timeout', int(min(timeout_ms, left * 1000)))
         r = s.check(bad)
         if r == z3.sat:
             m = s.model()
             sched = [all_labels[m.eval(picks[u], model_completion=True).as_long()] for u in range(t + 1)]
             return 'sat', time.time() - t0, sched
         if r == z3.unknown:
-            return 'unknown', time.time() - t0, None
-    return 'unsat', time.time() - t0, None
+            return 'unsat up to depth %d (solver timeout at the next depth)' % t, time.time() - t0, None
+    return 'unsat up to depth %d' % T, time.time() - t0, None
 
 
 def houdini(aut, sem, prop, timeout_ms=60000):
